@@ -357,17 +357,18 @@ impl ChessMove {
                 return Err(error);
             }
 
-            // takes is complicated, because of e.p.
-            if !takes {
-                if board.piece_on(m.get_dest()).is_some() {
-                    continue;
-                }
-            }
-
             // a pawn that changes file onto an empty square captures en passant,
             // whether or not the text spells out " e.p."
             let ep_capture = moving_piece == Piece::Pawn
                 && m.get_source().get_file() != m.get_dest().get_file();
+
+            // takes is complicated, because of e.p.
+            if !takes {
+                if board.piece_on(m.get_dest()).is_some() || ep_capture {
+                    continue;
+                }
+            }
+
             if !ep && !ep_capture && takes {
                 if board.piece_on(m.get_dest()).is_none() {
                     continue;
